@@ -218,12 +218,47 @@ def check_bool_before_int(run: Run, rule: str, scope: list[tuple[str, str]]) -> 
         fi = m.func(qual)
         found = list(isinstance_chain_violations(fi))
         if not found:
+            # the scalar branches may have been moved into a helper of the same module that receives the value
+            params = {a.arg for a in fi.node.args.args}  # type: ignore[attr-defined]
+            for c in walk_no_nested(fi.node):
+                if isinstance(c, ast.Call) and isinstance(c.func, ast.Name) and m.has_func(c.func.id) and any(isinstance(a, ast.Name) and a.id in params for a in c.args):
+                    sub = list(isinstance_chain_violations(m.func(c.func.id)))
+                    if sub:
+                        found = sub
+                        qual = f"{qual} -> {c.func.id}"
+                        break
+        if not found:
             raise AnalysisError(f"{fi.fqn}: no numeric isinstance test found (anchor moved?)")
         for subj, node, seen_bool in found:
             n += 1
             run.instance(rule, m.loc(node), f"{qual}: `{norm(node)}` is preceded by a bool test on `{subj}`", ok=seen_bool)
             if not seen_bool:
                 run.violation(rule, m, qual, node, f"`{subj}` is tested for int/float without a preceding bool test: True/False (instances of int) would be treated as numbers")
+
+
+# ----------------------------------------------------------------------------- memoisation
+def check_untyped_caches(run: Run, rule: str) -> None:
+    """functools.lru_cache / cache key their arguments by equality: True == 1 == 1.0 and False == 0 == 0.0 share a slot unless
+    typed=True, so a memoised value -> text (or value -> verdict) function returns the text of whichever was seen first"""
+    run.rule(rule, "no memoisation that confuses values of different kinds: every functools.lru_cache in the package is created with typed=True and functools.cache (which has no typed option) is not used - otherwise True / 1 / 1.0 (and False / 0 / 0.0) share a cache slot and the result depends on which was seen first in the process", 1)
+    n = 0
+    for m in run.project.modules.values():
+        for fi in m.functions.values():
+            for d in getattr(fi.node, "decorator_list", []):
+                txt = ast.unparse(d)
+                base = ast.unparse(d.func) if isinstance(d, ast.Call) else txt
+                if base.split(".")[-1] not in ("lru_cache", "cache"):
+                    continue
+                n += 1
+                typed = isinstance(d, ast.Call) and any(k.arg == "typed" and isinstance(k.value, ast.Constant) and k.value.value is True for k in d.keywords)
+                params = [a.arg for a in fi.node.args.args if a.arg not in ("self", "cls")]  # type: ignore[attr-defined]
+                ok = typed or not params
+                run.instance(rule, m.loc(fi.node), f"{fi.qualname}: @{txt}", ok=ok)
+                if not ok:
+                    run.violation(rule, m, fi.qualname, f"@{base.split('.')[-1]} without typed=True", f"{fi.qualname} is memoised with `@{txt}`: the cache key compares arguments by equality, so True, 1 and 1.0 (False, 0, 0.0) share one entry; after the float 1.0 has been seen the boolean true is answered with the float's result (and vice versa), depending on the order of calls in the process")
+    run.instance(rule, "src/octave_mcp", f"{n} memoised function(s) in the package", ok=True, nontrivial=False)
+    ctl = ast.parse("@lru_cache(maxsize=8)\ndef f(v):\n    return v\n").body[0]
+    run.control(rule, "an untyped @lru_cache on a sample function is recognised", any(ast.unparse(d.func if isinstance(d, ast.Call) else d).endswith("lru_cache") for d in ctl.decorator_list))  # type: ignore[attr-defined]
 
 
 # ----------------------------------------------------------------------------- numbers
@@ -318,6 +353,10 @@ def check(run: Run) -> None:
 
     check_escape_inverse(run, "R04.1", "R04.2")
     bare.check_bare(run, "R04.3", lm, em)
+    from . import c05
+
+    c05.check_prelex_text(run, "R04.7")
+    check_untyped_caches(run, "R04.8")
     check_bool_before_int(run, "R04.4", [("core.emitter", "emit_value"), ("core.constraints", "TypeConstraint.evaluate"), ("core.constraints", "RangeConstraint.evaluate"), ("core.validator", "Validator._validate_type")])
     check_number_lexemes(run, "R04.5", lm)
     from .c18 import check_normalize
